@@ -12,7 +12,7 @@ CfgOf(j) ==
         obsRec(r) ==
             LET ns == RangeOf(r.wf.nodes)
                 es == RangeOf(r.wf.edges)
-            IN [ est |-> r.est, dur |-> r.dur, demand |-> r.demand, ing |-> r.ing,
+            IN [ est |-> r.est, estT |-> r.estT, dur |-> r.dur, demand |-> r.demand, ing |-> r.ing,
                  rate |-> r.rate, torder |-> r.torder,
                  nodes |-> {n.k : n \in ns},
                  comp |-> [k \in {n.k : n \in ns} |-> (CHOOSE n \in ns : n.k = k).comp],
